@@ -97,7 +97,7 @@ PROPERTIES = {
     "C07": {
         "runs": {
             # KEEP=1: the versions are the in-process handles that have just been persisted (root = a name, or nil when emptied by Delete), not re-loaded trees
-            "quick": [H("HarnessC07a", b(N=2, K=2, MODE=m, KEEP=1)) for m in (1, 3)] + [H("HarnessC07a", b(N=3, K=1, MODE=1)), H("HarnessC07a", b(N=3, K=2, MODE=3)), H("HarnessC07a", b(N=3, K=2, MODE=7)), H("HarnessC07a", b(N=4, K=3, MODE=8)), H("HarnessC07a", b(N=3, K=4, MODE=9)),
+            "quick": [H("HarnessC07a", b(N=2, K=2, MODE=m, KEEP=1)) for m in (1, 3)] + [H("HarnessC07a", b(N=3, K=1, MODE=1, FAULT=6))] + [H("HarnessC07a", b(N=3, K=1, MODE=1)), H("HarnessC07a", b(N=3, K=2, MODE=3)), H("HarnessC07a", b(N=3, K=2, MODE=7)), H("HarnessC07a", b(N=4, K=3, MODE=8)), H("HarnessC07a", b(N=3, K=4, MODE=9)),
                       # directed: concrete 33-entry tree of height 5 (ruler layers), one symbolic modification (any key, any layer <= 5)
                       H("HarnessC07a", b(N=33, K=1, MODE=1, LRULER=1, CONCRETEKEYS=1, Lmax=5), sample_every=20, max_steps=20000000)] +
                      # CACHEMIX: the versions are written through a node cache; one side is opened through it (1: old, 2: new), the other without a cache
@@ -224,7 +224,7 @@ PROPERTIES = {
     },
     "C14": {
         "runs": {
-            "quick": [H("HarnessC14a", {"NK": n, "Lmax": 2}) for n in (0, 1, 2, 3)] + [H("HarnessC14a", {"NK": n, "Lmax": 2, "NILV": 1}) for n in (1, 2, 3)] + [H("HarnessC14b", b(N=3))] +
+            "quick": [H("HarnessC14h", {"X": 0})] + [H("HarnessC14a", {"NK": n, "Lmax": 2}) for n in (0, 1, 2, 3)] + [H("HarnessC14a", {"NK": n, "Lmax": 2, "NILV": 1}) for n in (1, 2, 3)] + [H("HarnessC14b", b(N=3))] +
                      [H("HarnessC14c", {"BF": 2, "VMAX": 0, "SIGNED": 0}), H("HarnessC14c", {"BF": 4, "VMAX": 0, "SIGNED": 0}), H("HarnessC14c", {"BF": 16, "VMAX": 0, "SIGNED": 0}),
                       H("HarnessC14c", {"BF": 16, "VMAX": 0, "SIGNED": 1}),
                       H("HarnessC14c", {"BF": 3, "VMAX": 2187, "SIGNED": 0}), H("HarnessC14c", {"BF": 10, "VMAX": 100000, "SIGNED": 0}), H("HarnessC14c", {"BF": 3, "VMAX": 729, "SIGNED": 1}),
@@ -238,8 +238,8 @@ PROPERTIES = {
                      [H("HarnessC14e", {"X": 0}), H("HarnessC14f", {"X": 0}), H("HarnessC14g", {"X": 0})],
         },
         "must_reach": ["C14.binary-layout", "C14.decode-is-inverse", "C14.v1marshaler-passes-bare-Node", "C14.uintLayer", "C14.intLayer", "C14.crc-table-is-ECMA", "C14.crc-step", "C14.blobLayer", "C14.stringLayer",
-                       "C14.compare-sign", "C14.compare-mismatch-errors", "C14.default-bf-16", "C14.default-format-binary", "C14.golden-node-bytes", "C14.golden-node-name", "C14.golden-uintLayer", "C14.golden-loads"],
-        "bounds_statement": "leaf differential harnesses: marshalMastNode vs an independent encoder and unmarshalMastNode as its inverse for nodes of NK entries and every nil/non-nil link pattern (and every subset of untyped-nil values); uintLayer/intLayer vs 'largest e with bf^e | v' over all 64-bit v for bf in {2,4,8,16} (full unrolling, every exit path) and over v < VMAX for bf in {3,5,6,7,10}; CRC table vs the bitwise ECMA polynomial (256 concrete entries), the table-driven update step vs the bitwise LFSR for any 64-bit state and byte, blob/string layers for every 1-byte key; DefaultKeyCompare for int/int64/uint/uint64 (all 64-bit values), string/[]byte of length 0..2, mismatched types; NewRoot/NewInMemory defaults for a symbolic BranchFactor; frozen reference vectors",
+                       "C14.length-prefix-is-uvarint", "C14.compare-sign", "C14.compare-mismatch-errors", "C14.default-bf-16", "C14.default-format-binary", "C14.golden-node-bytes", "C14.golden-node-name", "C14.golden-uintLayer", "C14.golden-loads"],
+        "bounds_statement": "leaf differential harnesses: marshalMastNode vs an independent encoder and unmarshalMastNode as its inverse for nodes of NK entries and every nil/non-nil link pattern (and every subset of untyped-nil values); the length prefix vs unsigned LEB128 for every length below 2^31; uintLayer/intLayer vs 'largest e with bf^e | v' over all 64-bit v for bf in {2,4,8,16} (full unrolling, every exit path) and over v < VMAX for bf in {3,5,6,7,10}; CRC table vs the bitwise ECMA polynomial (256 concrete entries), the table-driven update step vs the bitwise LFSR for any 64-bit state and byte, blob/string layers for every 1-byte key; DefaultKeyCompare for int/int64/uint/uint64 (all 64-bit values), string/[]byte of length 0..2, mismatched types; NewRoot/NewInMemory defaults for a symbolic BranchFactor; frozen reference vectors",
         "outside": ["v1marshaler bytes under the default JSON marshaler (encoding/json is not encodable): only the value handed to the marshaler is checked", "non-power-of-two branch factors beyond v < VMAX (64-bit division chains are out of the solvers' reach; see DESIGN 5)", "CRC inputs longer than one byte other than through the one-step lemma; inputs >= 64 bytes (slicing-by-8 path)", "the BLAKE2b bits (one published test vector only)"],
         "assumptions": COMMON_ASSUMPTIONS,
     },
@@ -256,13 +256,15 @@ PROPERTIES = {
     },
     "C18": {
         "runs": {
-            "quick": [H("HarnessC18m", {"LMAX": 2}, sched=True, preempt=3, race=True, sample_every=5), H("HarnessC18f", {"LMAX": 2}, **FILEPKG), H("HarnessC18s", {"LMAX": 2}, **S3PKG)],
+            "quick": [H("HarnessC18m", {"LMAX": 2}, sched=True, preempt=3, race=True, sample_every=5), H("HarnessC18f", {"LMAX": 2}, **FILEPKG), H("HarnessC18s", {"LMAX": 2}, **S3PKG),
+                      # file backend, two goroutines storing the same node under every schedule within the preemption bound (every file-system mutation is a scheduling point)
+                      H("HarnessC18f", {"LMAX": 1, "SCEN": 5}, **{**FILEPKG, "sched": True, "preempt": 3, "no_native": True, "sample_every": 50})],
             "thorough": [H("HarnessC18m", {"LMAX": 8}, sched=True, preempt=12, race=True, sample_every=20), H("HarnessC18f", {"LMAX": 16}, **{**FILEPKG, "sample_every": 20}), H("HarnessC18s", {"LMAX": 12}, **{**S3PKG, "sample_every": 10})],
         },
         "must_reach": ["C18.mem.roundtrip", "C18.mem.missing-name-errors", "C18.mem.roundtrip-after-concurrent-stores", "C18.mem.roundtrip-two-names",
                        "C18.file.roundtrip", "C18.file.missing-name-errors", "C18.file.read-error-returned",
                        "C18.s3.roundtrip", "C18.s3.put-addresses-prefix+name-in-bucket", "C18.s3.get-addresses-prefix+name-in-bucket", "C18.s3.put-error-returned", "C18.s3.get-error-returned", "C18.s3.body-read-error-returned"],
-        "bounds_statement": "for each backend: symbolic name of 1..2 characters from the node-name alphabet, symbolic payload of 0..LMAX bytes; load before any write, store, load, store again, load; second (possibly equal) name; in-memory: two goroutines storing the same node under every schedule within the preemption bound, with happens-before race detection; file: Stat/ReadFile/CreateTemp/Rename/Close failing; S3: fake client recording Bucket/Key/Body, symbolic bucket and prefix, client and body-read errors, GetObject reporting ContentLength and streaming the body in pieces of a symbolic size",
+        "bounds_statement": "for each backend: symbolic name of 1..2 characters from the node-name alphabet, symbolic payload of 0..LMAX bytes; load before any write, store, load, store again, load; second (possibly equal) name; in-memory: two goroutines storing the same node under every schedule within the preemption bound, with happens-before race detection; file: Stat/ReadFile/CreateTemp/Rename/Close failing, two goroutines storing the same node under every schedule within the preemption bound; S3: fake client recording Bucket/Key/Body, symbolic bucket and prefix, client and body-read errors, GetObject reporting ContentLength and streaming the body in pieces of a symbolic size",
         "outside": ["the real AWS client and network", "the real kernel file system (model; kernel used in native replay)", "payloads beyond LMAX bytes"],
         "assumptions": COMMON_ASSUMPTIONS,
     },
